@@ -76,10 +76,17 @@ class address_offsets:
     params = dict(self=ELFFileT(_section_header_stringtable=Opt(SectionT('StringTableSection'))), start=U64, size=U64)
     requires = ELFFILE_INV + ["self.header.e_shoff <= self.stream_len"]
     yield_shape = Int
-    loops = {0: dict(invariant=["$n <= $k", "end == start + size"])}
+    # step: an iteration yields exactly when its segment wholly contains the range -- with the enumeration's own step clause
+    # (every index is visited, a segment is passed on exactly when its type matches) this is the completeness half of
+    # "exactly those loadable segments": no containing PT_LOAD segment is skipped
+    loops = {0: dict(invariant=["$n <= $k", "end == start + size"], ghost_step={"$n0": "$n"},
+                     step=["(start >= seg.header.p_vaddr and end <= seg.header.p_vaddr + seg.header.p_filesz) == ($n == $n0 + 1)",
+                           "$n == $n0 or $n == $n0 + 1"])}
     each_yield = ["exists(lambda j: loadseg(self, j) and value == start - phdr(self, j).p_vaddr + phdr(self, j).p_offset"
                   " and start >= phdr(self, j).p_vaddr and start + size <= phdr(self, j).p_vaddr + phdr(self, j).p_filesz,"
                   " 0, max(0, nseg(self)))"]
+    # the enumeration is consumed to its end: the function does not return from inside the loop
+    ensures = ["$k0 == gen_len($seq0)"]
     may_raise = ["ELFError", "OverflowError"]
 from specs.contents import inflated, inflatable, zeros
 
